@@ -245,6 +245,40 @@ def special_members(facts):
                             pd = strip_all(src["b"]).get("d")
                         handled.setdefault(strip(n["args"][0])["f"], ("assign", pf, pd))
                 walk(fn["body"], visit)
+                # copy assignment written as `*this = std::move(copy)` (copy a local copy of the source): every field is handled the
+                # way the move assignment handles it
+                if kind == "copy-assign" and "move-assign" in sp and not handled:
+                    deleg = []
+
+                    def dv(n):
+                        if n.get("k") == "OpCall" and n.get("op") == "=" and len(n.get("args", [])) == 2:
+                            a0, a1 = strip_all(n["args"][0]), strip_all(n["args"][1])
+                            if a0.get("k") == "Un" and a0.get("op") == "*" and strip_all(a0.get("e") or {}).get("k") == "This" and a1.get("k") == "Ref" and a1.get("d") in copies:
+                                deleg.append(a1["d"])
+                    walk(fn["body"], dv)
+                    if deleg:
+                        mfn = sp["move-assign"]
+                        mother = mfn["params"][0]["d"] if mfn.get("params") else None
+                        saved = (fn, other)
+                        other_m = mother
+
+                        def visit_m(n):
+                            if n.get("k") == "Call" and n.get("cname") == "swap" and len(n.get("args", [])) == 2:
+                                a, b = n["args"]
+                                for x, y in ((a, b), (b, a)):
+                                    if is_this_member(x):
+                                        py = strip_all(y)
+                                        pb = strip_all(py.get("b", {})) if py.get("k") == "Member" else {}
+                                        handled[strip(x)["f"]] = ("swap", py.get("f"), deleg[0] if pb.get("d") == other_m else pb.get("d"))
+                            if n.get("k") == "Assign" and n.get("op") == "=" and is_this_member(n["l"]):
+                                src = strip_all(n["r"])
+                                pf, pd = (src.get("f"), strip_all(src["b"]).get("d")) if src.get("k") == "Member" else (None, None)
+                                handled.setdefault(strip(n["l"])["f"], ("assign", pf, deleg[0] if pd == other_m else pd))
+                            if n.get("k") == "OpCall" and n.get("op") == "=" and len(n.get("args", [])) == 2 and is_this_member(n["args"][0]):
+                                src = strip_all(n["args"][1])
+                                pf, pd = (src.get("f"), strip_all(src["b"]).get("d")) if src.get("k") == "Member" else (None, None)
+                                handled.setdefault(strip(n["args"][0])["f"], ("assign", pf, deleg[0] if pd == other_m else pd))
+                        walk(mfn["body"], visit_m)
                 for f in fields:
                     n = f["n"]
                     k = base + ":" + n
